@@ -30,4 +30,12 @@ def main():
 
 
 if __name__ == "__main__":
-    main()
+    try:
+        main()
+    except SystemExit:
+        raise
+    except BaseException as e:  # a checker crash must never look like a violation (exit 1)
+        import traceback
+        traceback.print_exc()
+        print(f"CHECKER-ERROR: {type(e).__name__}: {e}")
+        sys.exit(3)
